@@ -575,6 +575,8 @@ fn execute_inner(h: &History, want: &str, rep: &mut Report, start: Option<ExecSt
     let mut notes_undefined = want == "C18";
     let mut prev_out: Option<Out> = None;
     let mut observed_gate_mode = start_observed;
+    // (C06 only) the priority was switched and no note message has been applied since
+    let mut priority_switch_pending = false;
     let mut gate_seen = start_gate; // gate() as read after the previous byte
     for (i, op) in h.ops.iter().enumerate() {
         match op {
@@ -658,6 +660,31 @@ fn execute_inner(h: &History, want: &str, rep: &mut Report, start: Option<ExecSt
                 if observed_gate_mode {
                     continue;
                 }
+                if want == "C06" {
+                    // C06 is about framing (which bytes form which message, which messages are applied), not about what a
+                    // message means: what controller 121 restores is C18's clause, and the moment at which a priority
+                    // switch re-selects the sounding note (at the switch, or at the next note message) is C04's
+                    if eff == Effect::ResetControllers {
+                        rf.out.pb = got.pb;
+                        rf.out.mw = got.mw;
+                        rf.out.vol = got.vol;
+                        rf.out.cut = got.cut;
+                        rf.out.res = got.res;
+                        rf.out.pt = got.pt;
+                        rf.out.pe = got.pe;
+                        rf.out.se = got.se;
+                        rep.count("midi.c06.controller_reset_values_taken_from_the_implementation", 1);
+                    }
+                    let note_msg = matches!(eff, Effect::NoteOnRaises | Effect::NoteOnLegato | Effect::NoteOffLast | Effect::NoteOffSome | Effect::NoteOffStrayGateLow | Effect::NoteOffStrayGateHigh | Effect::AllOffGateHigh | Effect::AllOffGateLow);
+                    if note_msg && !rf.held.is_empty() {
+                        // the note message re-selected the sounding note from the held keys: defined again
+                        priority_switch_pending = false;
+                    } else if priority_switch_pending {
+                        // (also after a release of everything: "the last selected note" is the one selected at the switch
+                        // or the one before it)
+                        rf.out.note = got.note;
+                    }
+                }
                 let d = diff(&got, &rf.out);
                 let d = if notes_undefined {
                     // re-synchronise the note outputs of the reference with what is observed, compare controllers only
@@ -733,6 +760,7 @@ fn execute_inner(h: &History, want: &str, rep: &mut Report, start: Option<ExecSt
                 call!(m.set_note_priority(pr), i);
                 rf.priority = (*p).min(2);
                 n_eval += 1;
+                priority_switch_pending = true;
             }
             Op::Retrigger(b) => {
                 call!(m.set_retrigger_mode(if *b { RetriggerMode::AllowRetrigger } else { RetriggerMode::NoRetrigger }), i);
